@@ -115,6 +115,10 @@ type c19Case struct {
 	FallbackAvailable bool `json:"fallback_available"`
 	// order of slot callbacks and handler / fallback calls for the resource, e.g. "passed,handler,completed"
 	Seq string `json:"seq"`
+	// HTTP drivers: the response body, and (when BodyChecked) the body the configured fallback writes
+	Body         string `json:"body"`
+	FallbackBody string `json:"fallback_body"`
+	BodyChecked  bool   `json:"body_checked"`
 	// request made earlier on the same resource ("" = none): thorough tier, two-request histories
 	History string `json:"history"`
 	Notes                 string `json:"notes,omitempty"`
